@@ -180,14 +180,14 @@ func closeTo(t *vlib.T, what string, got mat.Matrix, want *M) {
 type shape2 struct{ m, n int }
 
 func genReuse(g *vlib.G) {
-	hi := vlib.Pick(g, 4, 5)
+	hi := vlib.Pick(g, 5, 6)
 	var sq []shape2
 	for n := 1; n <= hi; n++ {
 		sq = append(sq, shape2{n, n})
 	}
-	rect := []shape2{{1, 1}, {2, 2}, {3, 2}, {2, 3}, {3, 3}, {4, 2}, {2, 4}, {4, 3}, {4, 4}}
+	rect := []shape2{{1, 1}, {2, 2}, {3, 2}, {2, 3}, {3, 3}, {4, 2}, {2, 4}, {4, 3}, {4, 4}, {5, 3}, {3, 5}, {5, 5}, {6, 2}}
 	if g.Thorough() {
-		rect = append(rect, shape2{5, 3}, shape2{3, 5}, shape2{5, 5}, shape2{6, 2})
+		rect = append(rect, shape2{2, 6}, shape2{6, 6}, shape2{7, 4}, shape2{4, 7}, shape2{33, 32}, shape2{32, 33})
 	}
 	add := func(typ string, s1, s2 shape2, extra string, run func(t *vlib.T)) {
 		g.Case(fmt.Sprintf("reuse %s %dx%d -> %dx%d %s", typ, s1.m, s1.n, s2.m, s2.n, extra), run)
@@ -300,6 +300,14 @@ func reuseLU(t *vlib.T, n1, n2 int, first string) {
 				o.err(fmt.Sprintf("SolveVecTo(%v) err", tr), lu.SolveVecTo(&xv, tr, mat.NewVecDense(b.r, b.col(0))))
 				if !xv.IsEmpty() {
 					o.mat(fmt.Sprintf("SolveVecTo(%v)", tr), &xv)
+				}
+				var xu mat.Dense
+				o.err(fmt.Sprintf("SolveTo(%v, user b) err", tr), lu.SolveTo(&xu, tr, userMat{b}))
+				var xvu mat.VecDense
+				o.err(fmt.Sprintf("SolveVecTo(%v, user b) err", tr), lu.SolveVecTo(&xvu, tr, userVec{b.col(1)}))
+				if !xu.IsEmpty() {
+					o.mat(fmt.Sprintf("SolveTo(%v, user b)", tr), &xu)
+					o.mat(fmt.Sprintf("SolveVecTo(%v, user b)", tr), &xvu)
 				}
 			}
 			return o
@@ -481,6 +489,12 @@ func reuseQR(t *vlib.T, s1, s2 shape2) {
 				var xv mat.VecDense
 				o.err(fmt.Sprintf("SolveVecTo(%v) err", tr), qr.SolveVecTo(&xv, tr, mat.NewVecDense(rows, b.col(1))))
 				o.mat(fmt.Sprintf("SolveVecTo(%v)", tr), &xv)
+				var xu mat.Dense
+				o.err(fmt.Sprintf("SolveTo(%v, user b) err", tr), qr.SolveTo(&xu, tr, userMat{b}))
+				o.mat(fmt.Sprintf("SolveTo(%v, user b)", tr), &xu)
+				var xvu mat.VecDense
+				o.err(fmt.Sprintf("SolveVecTo(%v, user b) err", tr), qr.SolveVecTo(&xvu, tr, userVec{b.col(1)}))
+				o.mat(fmt.Sprintf("SolveVecTo(%v, user b)", tr), &xvu)
 			}
 			return o
 		})
@@ -519,6 +533,12 @@ func reuseLQ(t *vlib.T, s1, s2 shape2) {
 				var xv mat.VecDense
 				o.err(fmt.Sprintf("SolveVecTo(%v) err", tr), lq.SolveVecTo(&xv, tr, mat.NewVecDense(rows, b.col(1))))
 				o.mat(fmt.Sprintf("SolveVecTo(%v)", tr), &xv)
+				var xu mat.Dense
+				o.err(fmt.Sprintf("SolveTo(%v, user b) err", tr), lq.SolveTo(&xu, tr, userMat{b}))
+				o.mat(fmt.Sprintf("SolveTo(%v, user b)", tr), &xu)
+				var xvu mat.VecDense
+				o.err(fmt.Sprintf("SolveVecTo(%v, user b) err", tr), lq.SolveVecTo(&xvu, tr, userVec{b.col(1)}))
+				o.mat(fmt.Sprintf("SolveVecTo(%v, user b)", tr), &xvu)
 			}
 			return o
 		})
